@@ -80,6 +80,26 @@ CHECKS = {
     "when nothing fits; free lists up to 3 (quick) / 6 (thorough) entries, all register values. (b) BytecodeBuilder::add_constant for any "
     "pool length (index == old length < 65535 or Err), emit_load_number for every f64 (LoadInt only when exact). 'Limits are never "
     "cumulative', nesting depth and run-time lengths are outside the claim.")),
+ 'C02': dict(design='section 3, C02', text=(
+    "Kernel claim, a necessary condition only: register-write guarding. On every path of BytecodeVM::set_reg, set_resume_value and "
+    "from_saved_state (symbolic old/new values: numbers, object handles, undefined) an object that ends up in a register slot was passed "
+    "to Guard::guard on the VM's own register_guard first, the slot holds the new value, a displaced object is unguarded only after the "
+    "new one was guarded, and from_saved_state guards every restored register, `this` and call-frame environment on the guard it then "
+    "owns. The guard discipline of the ~400 natives, Traceable for JsObject and the collector are outside the claim.")),
+ 'C13': dict(design='section 3, C13', engine='E-Kani', technique='bounded model checking of the compiled code with Kani/CBMC (SAT), all values, unwinding assertions on', text=(
+    "Kernel claim: the unsafe bitmap kernels of src/gc.rs, decided by Kani/CBMC for ALL values: ChunkBitmask::{set,get,clear} for every "
+    "256-bit mask and index < 256 (including in-bounds-ness of the unchecked accesses); UnmarkedIter::next for a fresh iterator and as an "
+    "inductive step from any iterator state satisfying its representation invariant (returns the minimum of the remaining unmarked set "
+    "below len and removes exactly it, invariant re-established); the chunk*256+slot index arithmetic. History-level behaviour of Space "
+    "(mark/sweep/pool/ref-counts, stale handles, dropping the heap) is NOT decided."),
+    note="Trusted: Kani 0.68 / CBMC 6.11 with CaDiCaL on the code compiled by Kani's pinned toolchain; harnesses are a cfg(kani) child module of gc.rs overlaid on a scratch copy of /repo (the repository is not modified). kani::cover! witnesses must be SATISFIED (vacuity). A failing harness is reported with the Kani log as replay artefact."),
+ 'C14': dict(design='section 3, C14', text=(
+    "Kernel claim: function-local env-guard balance. With every callee abstracted by assume-guarantee (arbitrary result, arbitrary data "
+    "behind &mut, no env-guard effect) and push_env_guard/pop_env_guard as events: resume_bytecode_generator and "
+    "call_bytecode_function_with_new_target are balanced on every path to any return; push_trampoline_frame_and_call_bytecode(_construct) "
+    "push a guard iff they push a frame; restore_from_trampoline_frame pops exactly one; handle_error_with_trampoline_unwind pops one per "
+    "frame popped (states merged by control location + event history). A concrete companion runs self-contained programs repeatedly and "
+    "compares live-object counts after collect(). The collector, root_guard misuse and cross-yield scope pairing are outside the claim.")),
  'C15': dict(design='section 3, C15', text=(
     "Kernel claim. (a) ToInt32/ToUint32: the seven bitwise VM arms on every f64 bit pattern and undefined/null/boolean operands equal "
     "the ECMAScript definitions written over the IEEE-754 bit fields (complete operand domain, no bound). (b) PropertyKey::from_value on "
@@ -98,7 +118,9 @@ NA = {
 }
 
 engines = [
- {"name": "E-MIR", "path": "emir/", "serves_properties": sorted(CHECKS),
+ {"name": "E-Kani", "path": "kani/", "serves_properties": ["C13"],
+  "kind_free_text": "Kani 0.68 proof harnesses (kani/gc_h.rs) overlaid as a cfg(kani) child module of src/gc.rs on a scratch copy of /repo; CBMC 6.11 + CaDiCaL decide"},
+ {"name": "E-MIR", "path": "emir/", "serves_properties": sorted(k for k in CHECKS if k != 'C13'),
   "kind_free_text": "symbolic executor for rustc MIR (nightly -Zunpretty=mir dump of /repo's working tree, regenerated whenever a source "
                     "byte changes) emitting SMT; z3 5.1.0 decides, z3 4.8.12 and cvc5 re-decide final obligations; counterexamples are "
                     "replayed on the real build via replay/"},
